@@ -83,6 +83,16 @@ def dispatch (f : String) (j : Json) : Option Json :=
         let r := execL realCfg p realCfg.defaults
         !s.halted || (decide (s.tr = r.tr) && decide (getT realCfg t w.σ = r.m) && (excOf s == r.exc)))
       return Json.mkObj [("threads", Json.arr per.toArray), ("solo_equal", Json.bool solo)]
+  | "C20.phase" => some <| Id.run do
+      -- thread dict = defaults updated with "defaults"; what a phase sees for each of "keys"
+      let some dkv := (get j "defaults").bind parseKvs | return Json.mkObj [("err", "bad defaults")]
+      let some top := (get j "top").bind parseKvs | return Json.mkObj [("err", "bad top")]
+      let some ks := (get j "keys").bind asNats | return Json.mkObj [("err", "bad keys")]
+      let given : Option Kvs := match get j "given" with
+        | some g => if isNull g then none else parseKvs g
+        | none => none
+      let m := update realCfg.defaults dkv
+      return Json.arr (ks.map (fun k => ofNats [k, phaseView realCfg m top given k])).toArray
   | "C20.check" => some <| Id.run do
       let some kvs := (get j "kvs").bind parseKvs | return Json.mkObj [("err", "bad kvs")]
       let all := (getBool j "all").getD true
